@@ -123,7 +123,14 @@ func cmdCheck(args []string) {
 		}
 		fr := verifyFunction(l, cs, fn, con)
 		if fr.Err != "" {
-			toolErr("%s: %s", name, fr.Err)
+			// The contract no longer binds to the function's code (a loop it
+			// names is gone or changed shape, a name it uses no longer exists,
+			// an instruction left the supported subset): nothing is proved
+			// about this function, which is reported as a failed obligation —
+			// never as success, and not as a tool failure either.
+			fr.Obls = []*Obligation{{Name: name + "/contract-binding", Kind: "contract-binding", Fn: name, Props: []string{*prop},
+				Goal: "false", Src: fr.Err, Where: l.Prog.Fset.Position(fn.Pos()).String()}}
+			fr.Unbound = fr.Err
 		}
 		results = append(results, fr)
 		funcsUnder = append(funcsUnder, name)
@@ -158,6 +165,10 @@ func cmdCheck(args []string) {
 			defer wg.Done()
 			sem <- struct{}{}
 			defer func() { <-sem }()
+			if oc.FR.Unbound != "" {
+				oc.R = SolveResult{Status: "unbound", Raw: map[string]string{"vcgen": oc.FR.Unbound}}
+				return
+			}
 			q := oc.FR.Builder.script(oc.O.Pos)
 			if oc.O.Cover {
 				q += "(assert " + not(oc.O.Goal) + ")\n"
